@@ -670,26 +670,51 @@ func (d *fakeDiscovery) set(lo, hi uint16) {
 }
 
 type cbRec struct {
-	At   int64
-	T    time.Time
-	Name string
+	At    int64
+	T     time.Time
+	Name  string
+	Leave int64 // logical clock when the callback returned (0: it has not)
 }
 
 type fakeHandler struct {
 	mu    sync.Mutex
 	log   []cbRec
-	hooks map[string]func() // optional: run inside the named callback (once)
+	hooks map[string]func()        // optional: run inside the named callback (once)
+	slow  map[string]time.Duration // optional: the application's handler of that name takes this long (every time)
 }
 
 func (h *fakeHandler) add(n string) {
 	h.mu.Lock()
 	h.log = append(h.log, cbRec{At: tick(), T: time.Now(), Name: n})
+	idx := len(h.log) - 1
 	f := h.hooks[n]
 	delete(h.hooks, n)
+	d := h.slow[n]
 	h.mu.Unlock()
 	if f != nil {
 		f()
 	}
+	if d > 0 {
+		time.Sleep(d)
+	}
+	h.mu.Lock()
+	if idx < len(h.log) && h.log[idx].Name == n { // (a unit may have cleared the log meanwhile)
+		h.log[idx].Leave = tick()
+	}
+	h.mu.Unlock()
+}
+
+// overlap reports the first callback that was entered while the one emitted before it had not returned ("" if none):
+// the lifecycle callbacks of one stream are a bracketed sequence, not concurrent notifications
+func (h *fakeHandler) overlap(from int) string {
+	h.mu.Lock()
+	defer h.mu.Unlock()
+	for i := from + 1; i < len(h.log); i++ {
+		if p := h.log[i-1]; p.Leave == 0 || p.Leave > h.log[i].At {
+			return fmt.Sprintf("%s was emitted while the application's %s handler (emitted before it) had not returned", h.log[i].Name, p.Name)
+		}
+	}
+	return ""
 }
 
 func (h *fakeHandler) hook(name string, f func()) {
